@@ -181,48 +181,88 @@ func c20Site(c *Ctx, s grpcSite) {
 	}
 	// ---- O20.3 context
 	var og, mdn, wt *ssa.Call
-	EachInstr(fn, func(in ssa.Instruction) {
-		cl, ok := in.(*ssa.Call)
-		if !ok {
-			return
+	// in the shooting function itself or in the helpers of the package it calls (callContext(md), ...)
+	region := FindFuncs(fn, 2, func(*ssa.Function) bool { return true })
+	for _, g := range region {
+		EachInstr(g, func(in ssa.Instruction) {
+			cl, ok := in.(*ssa.Call)
+			if !ok {
+				return
+			}
+			switch {
+			case MatchCC(&cl.Call, sMDOutgoing):
+				og = cl
+			case MatchCC(&cl.Call, sMDNew):
+				mdn = cl
+			case MatchCC(&cl.Call, sWithTimeout):
+				wt = cl
+			}
+		})
+	}
+	// all values v resolves to (through the results of helpers) satisfy pred
+	allThrough := func(v ssa.Value, pred func(ssa.Value) bool) bool {
+		for _, r := range Roots(v, false) {
+			for _, t := range ThroughReturns(r) {
+				ok := false
+				for _, r2 := range Roots(t, false) {
+					if pred(r2) {
+						ok = true
+					} else {
+						ok = false
+						break
+					}
+				}
+				if !ok {
+					return false
+				}
+			}
 		}
-		switch {
-		case MatchCC(&cl.Call, sMDOutgoing):
-			og = cl
-		case MatchCC(&cl.Call, sMDNew):
-			mdn = cl
-		case MatchCC(&cl.Call, sWithTimeout):
-			wt = cl
-		}
-	})
+		return true
+	}
 	if og == nil || mdn == nil || wt == nil {
 		c.Bad("O20.3", key+":context-wiring", fn.Pos(), "metadata.NewOutgoingContext / metadata.New / context.WithTimeout not all present")
 		return
 	}
-	okCtx := DerivesOnly(inv.Call.Args[1], false, func(v ssa.Value) bool { return v == ssa.Value(og) }) &&
-		DerivesOnly(og.Call.Args[0], false, IsResultOf(wt, 0)) && DerivesOnly(og.Call.Args[1], false, func(v ssa.Value) bool { return v == ssa.Value(mdn) })
+	okCtx := allThrough(inv.Call.Args[1], func(v ssa.Value) bool { return v == ssa.Value(og) }) &&
+		allThrough(og.Call.Args[0], IsResultOf(wt, 0)) && allThrough(og.Call.Args[1], func(v ssa.Value) bool { return v == ssa.Value(mdn) })
 	c.Check(okCtx, "O20.3", key+":context-wiring", og.Pos(), "InvokeRpc(ctx) with ctx = NewOutgoingContext(WithTimeout(...) ctx, metadata.New(...))")
 	// metadata source
 	mdArg := mdn.Call.Args[0]
 	direct := fieldOfEntry(mdArg, s.entry, s.mdField)
 	if fn.Name() == "shootStep" {
 		// O20.5: a per-shot copy filled from the entry's metadata, the same map given to the templater
+		// the map made for this shot: made here, or by a helper of the package called here (copyMetadata(step.Metadata))
 		var mm *ssa.MakeMap
+		var mmVal ssa.Value // the value of the shooting function that stands for the copy
 		for _, r := range Roots(mdArg, false) {
-			if m, ok := r.(*ssa.MakeMap); ok && m.Parent() == fn {
-				mm = m
+			for _, t := range ThroughReturns(r) {
+				for _, r2 := range Roots(t, false) {
+					if m, ok := r2.(*ssa.MakeMap); ok {
+						inRegion := false
+						for _, g := range region {
+							if m.Parent() == g {
+								inRegion = true
+							}
+						}
+						if inRegion {
+							mm, mmVal = m, r
+						}
+					}
+				}
 			}
 		}
 		okCopy, okTempl := false, false
 		if mm != nil {
 			// filled by ranging over entry.Metadata
-			EachInstr(fn, func(in ssa.Instruction) {
+			EachInstr(mm.Parent(), func(in ssa.Instruction) {
 				if mu, ok := in.(*ssa.MapUpdate); ok && mu.Map == ssa.Value(mm) {
 					okCopy = rangedOver(mu.Key, func(m ssa.Value) bool { return fieldOfEntry(m, s.entry, s.mdField) }) &&
 						rangedOver(mu.Value, func(m ssa.Value) bool { return fieldOfEntry(m, s.entry, s.mdField) })
 				}
+			})
+			EachInstr(fn, func(in ssa.Instruction) {
 				if cc := CC(in); cc != nil && cc.IsInvoke() && cc.Method.Name() == "Apply" && len(cc.Args) >= 2 {
-					okTempl = cc.Args[1] == ssa.Value(mm) && InstrDominates(in, mdn)
+					okTempl = (cc.Args[1] == ssa.Value(mm) || cc.Args[1] == mmVal) && InstrDominates(in, mdn)
 				}
 			})
 		}
@@ -254,10 +294,12 @@ func c20Site(c *Ctx, s grpcSite) {
 	okT := false
 	tArg := wt.Call.Args[1]
 	var roots []ssa.Value
-	if phi, ok := tArg.(*ssa.Phi); ok {
-		roots = phi.Edges
-	} else {
-		roots = Roots(tArg, false)
+	for _, t := range ThroughReturns(tArg) { // the value itself, or what a helper (requestTimeout()) returns
+		if phi, ok := t.(*ssa.Phi); ok {
+			roots = append(roots, phi.Edges...)
+		} else {
+			roots = append(roots, Roots(t, false)...)
+		}
 	}
 	hasConf, hasDefault := false, false
 	for _, r := range roots {
@@ -280,7 +322,7 @@ func c20Site(c *Ctx, s grpcSite) {
 	// cancel deferred
 	okCancel := false
 	EachInstr(fn, func(in ssa.Instruction) {
-		if d, ok := in.(*ssa.Defer); ok && IsResultOf(wt, 1)(d.Call.Value) {
+		if d, ok := in.(*ssa.Defer); ok && allThrough(d.Call.Value, IsResultOf(wt, 1)) {
 			okCancel = true
 		}
 	})
